@@ -67,6 +67,13 @@ def run(ctx):
         "does not: recorded known finding); (D4) getscript returns the join of all decoded lines: no filter, slice or "
         "content-dependent branch; (D5) the ACTIVE marker is recognised only in the group after the name, anchored.")
     ctx.not_decided = "equality with a reference server's store over all names/bodies; behaviour of bytes.splitlines on lone CR."
+    decoder_rules(ctx, R)
+    # a literal the error parser fails to consume becomes "data" of the next reply (rules Q3/Q4/Q6 of C09)
+    from .c09 import q34
+    q34(ctx, R)
+
+
+def decoder_rules(ctx, R, skip_d3=False):
     lst = R.methods.get("listscripts")
     get = R.methods.get("getscript")
     if lst is None or get is None:
@@ -161,7 +168,17 @@ def run(ctx):
                     if a0 in (rb"\\(.)", rb"\\([\s\S])", rb'\\(["\\])') and a1 in (rb"\1", rb"\g<1>"):
                         unesc = True
                 if isinstance(p, ast.Call) and call_name(p) == "replace" and len(p.args) == 2:
-                    if const_value(ctx.program, lst, p.args[0]) == b'\\"':
+                    chain = []
+                    q = p
+                    while isinstance(q, ast.Call) and call_name(q) == "replace" and len(q.args) == 2:
+                        chain.append((const_value(ctx.program, lst, q.args[0]), const_value(ctx.program, lst, q.args[1])))
+                        q = q.func.value
+                    up = getattr(p, "_parent", None)
+                    while isinstance(up, ast.Attribute) and isinstance(getattr(up, "_parent", None), ast.Call) and up.attr == "replace":
+                        up = up._parent
+                        chain.append((const_value(ctx.program, lst, up.args[0]), const_value(ctx.program, lst, up.args[1])) if len(up.args) == 2 else (None, None))
+                        up = getattr(up, "_parent", None)
+                    if (b'\\"', b'"') in chain and (b"\\\\", b"\\") in chain:
                         unesc = True
                 p = getattr(p, "_parent", None)
     if uses == 0:
@@ -230,6 +247,18 @@ def run(ctx):
     for kind, n in probs:
         ctx.violation("D4", get, "content-%s" % kind, "getscript alters the downloaded script depending on its content: %s" % norm(n)[:70],
                       node=n, witness="a script line that looks like protocol (or has significant whitespace) is dropped or changed")
+    # lines are split on the bytes (CR / LF / CRLF only); str.splitlines() also splits on FF, VT, FS, GS, RS, NEL, LS, PS
+    for c in walk_no_nested(get.node):
+        if isinstance(c, ast.Call) and isinstance(c.func, ast.Attribute) and c.func.attr == "splitlines":
+            recv = c.func.value
+            if isinstance(recv, ast.Call) and call_name(recv) in ("decode", "str") or any(
+                    isinstance(x, ast.Call) and call_name(x) == "decode" for x in ast.walk(recv)):
+                probs.append(("text-splitlines", c))
+                ctx.violation("D4", get, "text-splitlines", "getscript splits the DECODED text into lines: str.splitlines() also breaks lines at "
+                              "FF, VT, FS/GS/RS, NEL, U+2028 and U+2029, which are data, not line endings", node=c,
+                              witness="a script containing U+2028 inside a string comes back with that line broken in two")
+            elif isinstance(recv, ast.Name) and recv.id in tvg:
+                ctx.holds("D4", "lines are split on the reply bytes (%s.splitlines())" % recv.id)
     rets = [r for r in walk_no_nested(get.node) if isinstance(r, ast.Return) and r.value is not None
             and any(isinstance(x, ast.Name) and x.id in tvg for x in ast.walk(r.value))]
     if not rets:
